@@ -148,7 +148,9 @@ class Run:
                 entry = {key: f"mc.stubs:{s_.get('cls', 'StubSim')}"}
                 if s_.get("cfg_version"):
                     entry["api_version"] = s_["cfg_version"]
-                simcfg[f"Stub_{s_['sid']}"] = entry
+                # `entry`: several simulators started from ONE sim_config entry (the first
+                # simulator naming it defines it)
+                simcfg.setdefault(s_.get("entry") or f"Stub_{s_['sid']}", entry)
         kw = {}
         if "time_resolution" in scen:
             kw["time_resolution"] = scen["time_resolution"]
@@ -174,7 +176,7 @@ class Run:
             w.current_group = groups[s.get("group")]
             with warnings.catch_warnings():
                 warnings.simplefilter("ignore")
-                name = f"Stub_{sid}" if (s.get("cls") or s.get("cfg_version")) else "Stub"
+                name = (s.get("entry") or f"Stub_{sid}") if (s.get("cls") or s.get("cfg_version")) else "Stub"
                 factory = w.start(name, sim_id=sid, spec=s)
                 for meth in s.get("extra_calls", ()):
                     try:
